@@ -331,7 +331,12 @@ func (s *schemaBuilder) buildFromType(tpe types.Type, tgt swaggerTypable) error 
 		eleProp := schemaTypable{sch, tgt.Level()}
 		key := titpe.Key()
 		isTextMarshaler := types.Implements(key, ifc)
-		if key.Underlying().String() == "string" || isTextMarshaler {
+		// encoding/json also accepts integer keys: they are written as their decimal text
+		isIntegerKey := false
+		if kb, ok := key.Underlying().(*types.Basic); ok {
+			isIntegerKey = kb.Info()&types.IsInteger != 0
+		}
+		if key.Underlying().String() == "string" || isTextMarshaler || isIntegerKey {
 			return s.buildFromType(titpe.Elem(), eleProp.AdditionalProperties())
 		}
 	case *types.Named:
